@@ -5,7 +5,12 @@ NB = {'pkg/northbound/gnmi/v2/zz_verif_nbenv.go': 'nb/zz_verif_nbenv.go',
       'pkg/northbound/gnmi/v2/zz_verif_nbgen.go': 'nb/zz_verif_nbgen.go'}
 V2C = {'pkg/controller/v2/proposal/zz_verif_ctor.go': 'v2/ctor_prop.go',
        'pkg/controller/v2/configuration/zz_verif_ctor.go': 'v2/ctor_cfg.go',
-       'pkg/store/v2/configuration/zz_verif_cfgstore.go': 'c03/zz_verif_cfgstore.go'}
+       'pkg/store/v2/configuration/zz_verif_cfgstore.go': 'c03/zz_verif_cfgstore.go',
+       'pkg/store/v2/configuration/zz_verif_cfgclient.go': 'c03/zz_verif_cfgclient_sym.go|c03/zz_verif_cfgclient_native.go'}
+# the SDK's map builder resolves a primitive by its NAME (PrimitiveID{Name}); the symbolic run binds names to stub primitives
+PROTO_CODEC = 'github.com/atomix/go-sdk/pkg/types.Proto[*github.com/onosproject/onos-api/go/onos/config/v2.PathValue]'
+BUILDER_GET = ('(*github.com/atomix/go-sdk/pkg/primitive/map.mapBuilder[string, *github.com/onosproject/onos-api/go/onos/config/v2.PathValue]).Get'
+               '[string *github.com/onosproject/onos-api/go/onos/config/v2.PathValue]')
 
 
 def run(ctx):
@@ -14,7 +19,7 @@ def run(ctx):
     f['pkg/northbound/gnmi/v2/zz_verif_c03.go'] = 'c03/zz_verif_c03.go'
     f['pkg/northbound/gnmi/v2/zz_verif_c04.go'] = 'c04/zz_verif_c04.go'
     sets = [1, 2] if ctx.tier == 'quick' else [1, 2, 3]
-    hs = [H('VerifC04History', 'pkg/northbound/gnmi/v2', f, unwind=16, opts={'params': {'sets': n}},
+    hs = [H('VerifC04History', 'pkg/northbound/gnmi/v2', f, unwind=16, opts={'params': {'sets': n}, 'cuts': {BUILDER_GET: 'atomix-map-by-name', PROTO_CODEC: 'noop'}},
             timeout_ms=300000 if ctx.tier == 'quick' else 1800000) for n in sets]
     driver.check_harnesses(ctx, hs)
     driver.write_evidence(ctx, 'model_checking', 'Set -> commit -> apply -> device; restart + re-push by the configuration controller', {'sets': sets}, [])
